@@ -498,6 +498,131 @@ func c10ServerRequests(jsonResp bool) vs.Verdict {
 	return f.verdict(strings.Join(summary, " "))
 }
 
+// c10UpcallCancel: a handler's server-to-client request is abandoned (its context is cancelled) while
+// the tool call is still in flight.  The resulting notifications/cancelled must travel where the
+// request travelled - the call's own exchange (the standalone stream in JSON-response mode) - so
+// that it reaches the client whether or not a standalone stream is attached, and must name the
+// abandoned request.
+func c10UpcallCancel(prefix string, jsonResp, standaloneAttached bool) vs.Verdict {
+	f := &e1Fail{prefix: prefix}
+	ctx := context.Background()
+	ctl := vs.NewController()
+	abandon := ctl.Gate("abandon-upcall")
+	finish := ctl.Gate("finish-call")
+	vs.Quiet(true)
+	s := NewServer(&Implementation{Name: "srv", Version: "1"}, &ServerOptions{Logger: quietLogger})
+	AddTool(s, &Tool{Name: "ask"}, func(ctx context.Context, r *CallToolRequest, in c10Args) (*CallToolResult, any, error) {
+		cctx, cancel := context.WithCancel(ctx)
+		vs.Go(func() {
+			abandon.Wait()
+			cancel()
+		})
+		_, err := r.Session.CreateMessage(cctx, &CreateMessageParams{SystemPrompt: in.Tag, MaxTokens: 1, Messages: []*SamplingMessage{}})
+		vs.Event("upcall returned: %v", err != nil)
+		finish.Wait() // the tool call itself stays in flight while the cancellation notice is sent
+		return &CallToolResult{Content: []Content{&TextContent{Text: in.Tag}}}, nil, nil
+	})
+	h := NewStreamableHTTPHandler(func(*http.Request) *Server { return s }, &StreamableHTTPOptions{JSONResponse: jsonResp, Logger: quietLogger})
+	mk := func(method, sid, body string) *http.Request {
+		var r *http.Request
+		if body != "" {
+			r = httptest.NewRequest(method, "http://example.test/mcp", strings.NewReader(body))
+			r.Header.Set("Content-Type", "application/json")
+		} else {
+			r = httptest.NewRequest(method, "http://example.test/mcp", nil)
+		}
+		r.Header.Set("Accept", "application/json, text/event-stream")
+		if sid != "" {
+			r.Header.Set("Mcp-Session-Id", sid)
+		}
+		r.Header.Set("Mcp-Protocol-Version", "2025-06-18")
+		return r
+	}
+	w := httptest.NewRecorder()
+	h.ServeHTTP(w, mk("POST", "", `{"jsonrpc":"2.0","id":"i","method":"initialize","params":{"protocolVersion":"2025-06-18","capabilities":{"sampling":{}},"clientInfo":{"name":"c","version":"1"}}}`))
+	sid := w.Header().Get("Mcp-Session-Id")
+	h.ServeHTTP(httptest.NewRecorder(), mk("POST", sid, `{"jsonrpc":"2.0","method":"notifications/initialized","params":{}}`))
+	gctx, gcancel := context.WithCancel(ctx)
+	standalone := httptest.NewRecorder()
+	if standaloneAttached {
+		vs.Go(func() { h.ServeHTTP(standalone, mk("GET", sid, "").WithContext(gctx)) })
+		vs.WaitIdle()
+	}
+	vs.Quiet(false)
+	rec := httptest.NewRecorder()
+	done := make(chan struct{})
+	vs.Go(func() {
+		h.ServeHTTP(rec, mk("POST", sid, `{"jsonrpc":"2.0","id":1,"method":"tools/call","params":{"name":"ask","arguments":{"tag":"A"}}}`))
+		close(done)
+	})
+	// the controller opens "abandon-upcall" once the handler waits for the client's reply, then
+	// "finish-call" once the cancellation notice has gone out
+	<-done
+	ctl.Stop()
+	vs.Quiet(true)
+	gcancel()
+	for ss := range s.Sessions() {
+		ss.Close()
+	}
+	vs.WaitIdle()
+	vs.Quiet(false)
+	type hit struct {
+		where, method string
+		id            any
+	}
+	var hits []hit
+	scan := func(where string, r *httptest.ResponseRecorder) {
+		for _, evt := range hxParseSSE(r.Body.Bytes()) {
+			var m map[string]any
+			if len(evt.Data) == 0 || json.Unmarshal(evt.Data, &m) != nil {
+				continue
+			}
+			switch m["method"] {
+			case "sampling/createMessage":
+				hits = append(hits, hit{where, "request", m["id"]})
+			case "notifications/cancelled":
+				p, _ := m["params"].(map[string]any)
+				hits = append(hits, hit{where, "cancelled", p["requestId"]})
+			}
+		}
+	}
+	scan("call-exchange", rec)
+	scan("standalone", standalone)
+	want := "call-exchange"
+	if jsonResp {
+		want = "standalone"
+	}
+	var reqID any
+	nreq, ncan := 0, 0
+	for _, x := range hits {
+		switch x.method {
+		case "request":
+			nreq++
+			reqID = x.id
+			if x.where != want {
+				f.failf("server-request-on-foreign-exchange", "the sampling request travelled on %s, want %s", x.where, want)
+			}
+		}
+	}
+	for _, x := range hits {
+		if x.method != "cancelled" {
+			continue
+		}
+		ncan++
+		if x.where != want {
+			f.failf("cancel-notice-on-foreign-stream", "the handler abandoned its sampling request: notifications/cancelled travelled on %s, the request it cancels travelled on %s (standalone stream attached: %v)", x.where, want, standaloneAttached)
+		}
+		if fmt.Sprint(x.id) != fmt.Sprint(reqID) {
+			f.failf("cancel-notice-names-other-request", "notifications/cancelled names request %v, the abandoned request has id %v", x.id, reqID)
+		}
+	}
+	reachable := !jsonResp || standaloneAttached // in JSON mode without a standalone stream the request itself cannot be delivered
+	if reachable && nreq == 1 && ncan != 1 {
+		f.failf("cancel-notice-lost", "the handler abandoned its sampling request but %d notifications/cancelled reached the client (standalone stream attached: %v, json mode: %v)", ncan, standaloneAttached, jsonResp)
+	}
+	return f.verdict(fmt.Sprintf("requests=%d cancelled=%d", nreq, ncan))
+}
+
 func TestVerifC10(t *testing.T) {
 	env := verifx.LoadEnv("C10")
 	b := env.Pick(1, 2)
@@ -512,6 +637,9 @@ func TestVerifC10(t *testing.T) {
 		mk("stateful-sse+store/duplicate-in-flight-id", c10Opts{dupID: true, store: true}, env.Pick(2, 3)),
 		vs.E1(t, "stateful-sse/server-requests-during-calls", b, vs.Options{}, func() vs.Verdict { return c10ServerRequests(false) }),
 		vs.E1(t, "stateful-json/server-requests-during-calls", b, vs.Options{}, func() vs.Verdict { return c10ServerRequests(true) }),
+		vs.E1(t, "stateful-sse/abandoned-server-request", b, vs.Options{}, func() vs.Verdict { return c10UpcallCancel("c10 upcall-cancel", false, true) }),
+		vs.E1(t, "stateful-sse/abandoned-server-request/no-standalone-stream", b, vs.Options{}, func() vs.Verdict { return c10UpcallCancel("c10 upcall-cancel", false, false) }),
+		vs.E1(t, "stateful-json/abandoned-server-request", b, vs.Options{}, func() vs.Verdict { return c10UpcallCancel("c10 upcall-cancel", true, true) }),
 		vs.E1(t, "stateful-sse/cut-then-retry-same-id", env.Pick(2, 3), vs.Options{}, func() vs.Verdict { return c10CutRetry(false) }),
 		vs.E1(t, "stateful-sse+store/cut-then-retry-same-id", env.Pick(2, 3), vs.Options{}, func() vs.Verdict { return c10CutRetry(true) }),
 	}
